@@ -5,6 +5,7 @@ and by the reference DEVS interpreter; the handler log (tag, clock seen inside t
 every scheduling request with the pending size before/after, every write of the simulator clock and the
 final clock are compared.
 """
+from vlib.simharness import num
 ID = "C02"
 LEVEL = "exploration"
 TECHNIQUE = "runtime monitor: handler/scheduling/clock-write history of the real simulator vs reference DEVS interpreter on generated model programs"
@@ -27,7 +28,7 @@ def plan(tier):
 def gen_case(rng, tier, i):
     from vlib.proggen import gen_program
     clock = ["float", "int", "duration"][i % 3]
-    return {"prog": gen_program(rng, clock=clock, n_events=rng.randint(5, 60))}
+    return {"prog": gen_program(rng, clock=clock, n_events=rng.randint(5, 60), bigint=True)}
 
 
 def shard_teardown(tier, ctx):
@@ -98,8 +99,8 @@ def run_case(case, ctx):
             return
         if not check_clock_monotone(h, ctx, where):
             return
-        if snap["clock"] != float(ref.clock):
-            ctx.viol("final-clock", {**where, "got": snap["clock"], "want": float(ref.clock)})
+        if snap["clock"] != num(ref.clock):
+            ctx.viol("final-clock", {**where, "got": snap["clock"], "want": num(ref.clock)})
             return
         if snap["run_state"] != "ENDED":
             ctx.viol("not-ended-after-start", {**where, "snapshot": snap})
